@@ -64,8 +64,9 @@ def run(repo: Repo, R: Report) -> None:
     nmod = repo.module(NODES)
     for cls_name in ("_DataNode", "_ContextProcessorNode"):
         init = repo.func(NODES, f"{cls_name}.__init__")
-        ifs = [n for n in walk_no_nested(init) if isinstance(n, ast.If) and dotted_name(n.test) == "issues"]
-        ok = bool(ifs) and isinstance(ifs[0].body[-1], ast.Raise) and "InvalidNodeParameterError" in ast.unparse(ifs[0].body[-1]) and "i['name']" in ast.unparse(ifs[0].body[-1]).replace('"', "'")
+        iv = next((n.targets[0].id for n in walk_no_nested(init) if isinstance(n, ast.Assign) and isinstance(n.targets[0], ast.Name) and isinstance(n.value, ast.Call) and call_attr(n.value) == "classify_unknown_config_params"), "__missing__")
+        ifs = [n for n in walk_no_nested(init) if isinstance(n, ast.If) and dotted_name(n.test) == iv]
+        ok = bool(ifs) and isinstance(ifs[0].body[-1], ast.Raise) and "InvalidNodeParameterError" in ast.unparse(ifs[0].body[-1]) and "['name']" in ast.unparse(ifs[0].body[-1]).replace('"', "'") and iv in {x.id for x in ast.walk(ifs[0].body[-1]) if isinstance(x, ast.Name)}
         R.check(ok, r_sib, NODES, f"{cls_name}.__init__", "if issues: raise InvalidNodeParameterError(invalid={names})", "unknown parameters found by the classifier are not rejected at node construction with the same names", init.lineno)
 
     # ------------------------------------------------------------------ D3
@@ -125,33 +126,36 @@ def run(repo: Repo, R: Report) -> None:
     # ------------------------------------------------------------------ D5
     r_state = R.rule("C02-D5-context-state", "per node, after its own parameters were classified: every created key (incl. a probe's context_key) is recorded as produced by *this* node and un-deleted; suppressed keys of context processors become deleted; classification reads the live key_origin/deleted_keys", 7)
     bf = repo.func(BUILDER, BPI)
-    loop = next((n for n in walk_no_nested(bf) if isinstance(n, ast.For) and "node_configs" in ast.unparse(n.iter)), None)
-    if loop is None:
-        raise AnalysisError("build_pipeline_inspection: main loop not found")
+    from .c02 import _main_loop, state_roles
+
+    loop = _main_loop(bf)
+    KO, DK = state_roles(bf)
     idx = loop.target.elts[0].id if isinstance(loop.target, ast.Tuple) else None
-    stores = [n for n in ast.walk(loop) if isinstance(n, ast.Assign) and any(isinstance(t, ast.Subscript) and dotted_name(t.value) == "key_origin" for t in n.targets)]
-    sd = [c for c in calls_in(loop) if call_attr(c) in ("setdefault",) and dotted_name(c.func.value) == "key_origin"]
+    stores = [n for n in ast.walk(loop) if isinstance(n, ast.Assign) and any(isinstance(t, ast.Subscript) and dotted_name(t.value) == KO for t in n.targets)]
+    sd = [c for c in calls_in(loop) if call_attr(c) in ("setdefault",) and dotted_name(c.func.value) == KO]
     R.check(not sd, r_state, BUILDER, BPI, "no key_origin.setdefault(...)", "the first writer of a key is kept as its origin: after a key is re-created the reported origin of a later reader points at the wrong node", sd[0].lineno if sd else loop.lineno)
-    created_loop = [n for n in ast.walk(loop) if isinstance(n, ast.For) and dotted_name(n.iter) == "created_keys"]
+    created_loop = [n for n in ast.walk(loop) if isinstance(n, ast.For) and n is not loop and isinstance(n.iter, ast.Name) and any(any(a is n for a in ancestors(s)) for s in stores)]
     ok = False
+    CK = created_loop[0].iter.id if created_loop else "__missing__"
     if created_loop:
         body = created_loop[0]
         k = body.target.id if isinstance(body.target, ast.Name) else None
         st = [s for s in stores if any(a is body for a in ancestors(s))]
-        ok = bool(st) and all(dotted_name(s.value) == idx and ast.unparse(s.targets[0]) == f"key_origin[{k}]" and not [a for a in ancestors(s) if isinstance(a, ast.If) and any(a2 is body for a2 in ancestors(a))] for s in st)
-        undelete = any(isinstance(c, ast.Call) and call_attr(c) in ("remove", "discard") and dotted_name(c.func.value) == "deleted_keys" for c in ast.walk(body))
+        ok = bool(st) and all(dotted_name(s.value) == idx and ast.unparse(s.targets[0]) == f"{KO}[{k}]" and not [a for a in ancestors(s) if isinstance(a, ast.If) and any(a2 is body for a2 in ancestors(a))] for s in st)
+        undelete = any(isinstance(c, ast.Call) and call_attr(c) in ("remove", "discard") and dotted_name(c.func.value) == DK for c in ast.walk(body))
         ok = ok and undelete
     R.check(ok, r_state, BUILDER, BPI, "for key in created_keys: key_origin[key] = index (unconditionally) and un-delete", "created keys are not all recorded as produced by the current node / re-created keys stay marked deleted", loop.lineno)
-    ck_defs = [n for n in ast.walk(loop) if isinstance(n, ast.Assign) and any(dotted_name(t) == "created_keys" for t in n.targets)]
-    ok = any("get_ck()" in ast.unparse(n.value) or "get_created_keys" in ast.unparse(n.value) for n in ck_defs)
+    ck_defs = [n for n in ast.walk(loop) if isinstance(n, ast.Assign) and any(dotted_name(t) == CK for t in n.targets)]
+    ok = any("get_created_keys" in ast.unparse(n.value) or any("get_created_keys" in ast.unparse(v) for x in ast.walk(n.value) if isinstance(x, ast.Name) for v in assigned_value(bf, x.id)) for n in ck_defs)
     R.check(ok, r_state, BUILDER, BPI, "created_keys = set(processor.get_created_keys())", "created keys are not taken from the processor's declaration", loop.lineno)
-    probe_add = [c for c in calls_in(loop) if call_attr(c) == "add" and dotted_name(c.func.value) == "created_keys" and "context_key" in ast.unparse(c)]
+    probe_add = [c for c in calls_in(loop) if call_attr(c) == "add" and dotted_name(c.func.value) == CK and "context_key" in ast.unparse(c)]
     R.check(bool(probe_add) and any(isinstance(a, ast.If) and "_ProbeContextInjectorNode" in ast.unparse(a.test) for a in ancestors(probe_add[0])) if probe_add else False, r_state, BUILDER, BPI, "probe nodes: created_keys.add(node.context_key)", "a probe's context key is not recorded as created by the probe node", loop.lineno)
-    sup = [c for c in calls_in(loop) if call_attr(c) == "update" and dotted_name(c.func.value) == "deleted_keys"]
-    ok = bool(sup) and "suppressed_keys" in ast.unparse(sup[0]) and any("get_suppressed_keys()" in ast.unparse(v) for v in [n.value for n in ast.walk(loop) if isinstance(n, ast.Assign) and any(dotted_name(t) == "suppressed_keys" for t in n.targets)])
+    sup = [c for c in calls_in(loop) if call_attr(c) == "update" and dotted_name(c.func.value) == DK]
+    SUP = dotted_name(sup[0].args[0]) if sup and sup[0].args else "__missing__"
+    ok = bool(sup) and any("get_suppressed_keys()" in ast.unparse(v) for v in [n.value for n in ast.walk(loop) if isinstance(n, ast.Assign) and any(dotted_name(t) == SUP for t in n.targets)])
     R.check(ok, r_state, BUILDER, BPI, "deleted_keys.update(node.get_suppressed_keys())", "keys a context processor removes are not marked deleted: a later reader is reported as satisfied by context", loop.lineno)
     ioc = [c for c in calls_in(loop) if call_attr(c) == "inspect_origin"]
-    ok = len(ioc) == 1 and dotted_name(kwarg(ioc[0], "key_origin")) == "key_origin" and dotted_name(kwarg(ioc[0], "deleted_keys")) == "deleted_keys" and "processor_config" in ast.unparse(kwarg(ioc[0], "processor_config") or ast.Constant(value=""))
+    ok = len(ioc) == 1 and dotted_name(kwarg(ioc[0], "key_origin")) == KO and dotted_name(kwarg(ioc[0], "deleted_keys")) == DK and _defined_before_loop(bf, loop, KO) and _defined_before_loop(bf, loop, DK) and "processor_config" in ast.unparse(kwarg(ioc[0], "processor_config") or ast.Constant(value=""))
     R.check(ok, r_state, BUILDER, BPI, "inspect_origin(..., key_origin=key_origin, deleted_keys=deleted_keys)", "parameter origins are not classified against the live per-node context state", loop.lineno)
     # ordering: classification before this node's own stores
     g = CFG(bf, may_raise=lambda p: set())
@@ -172,6 +176,14 @@ def run(repo: Repo, R: Report) -> None:
             if isinstance(a, ast.For) and a is not loop and any(nid in after for nid in g.nodes_for(a)):
                 late.append(c)
     R.check(not late, r_state, BUILDER, BPI, "parameters are classified before the node's created/suppressed keys are registered", "a node's own created keys are visible while its parameters are classified: a node that requires and creates the same key satisfies itself", loop.lineno)
-    md = [n for n in ast.walk(loop) if isinstance(n, ast.Assign) and any(dotted_name(t) == "missing_deleted" for t in n.targets)]
-    ok = bool(md) and "required_params" in ast.unparse(md[0].value) and "deleted_keys" in ast.unparse(md[0].value) and any(call_attr(c) == "append" and dotted_name(c.func.value) == "node_errors" and any(isinstance(a, ast.If) and "missing_deleted" in ast.unparse(a.test) for a in ancestors(c)) for c in calls_in(loop))
+    ok = False
+    for n in ast.walk(loop):
+        if isinstance(n, ast.Assign) and isinstance(n.targets[0], ast.Name) and DK in {x.id for x in ast.walk(n.value) if isinstance(x, ast.Name)} and any(isinstance(b, ast.BinOp) and isinstance(b.op, ast.BitAnd) for b in ast.walk(n.value)):
+            v = n.targets[0].id
+            if any(call_attr(c) == "append" and any(isinstance(a, ast.If) and v in {x.id for x in ast.walk(a.test) if isinstance(x, ast.Name)} for a in ancestors(c)) for c in calls_in(loop)):
+                ok = True
     R.check(ok, r_state, BUILDER, BPI, "required ∩ deleted keys -> node error", "requiring a key that an earlier node deleted is not reported", loop.lineno)
+
+
+def _defined_before_loop(fn: ast.AST, loop: ast.For, name: str) -> bool:
+    return any(isinstance(n, (ast.Assign, ast.AnnAssign)) and any(dotted_name(t) == name for t in (n.targets if isinstance(n, ast.Assign) else [n.target])) and n.lineno < loop.lineno for n in walk_no_nested(fn))
